@@ -509,19 +509,6 @@ impl Storage {
             .expect("tip header should be inited")
     }
 
-    pub fn update_last_n_headers(&self, headers: &[HeaderView]) {
-        let key = Key::Meta(LAST_N_HEADERS_KEY).into_vec();
-        let mut value: Vec<u8> = Vec::with_capacity(headers.len() * 40);
-        for header in headers {
-            value.extend(header.number().to_le_bytes());
-            value.extend(header.hash().as_slice());
-        }
-        #[cfg(feature = "verif")]
-        verif_hook::before_write();
-        self.db
-            .put(key, &value)
-            .expect("db put last n headers should be ok");
-    }
     pub fn get_last_n_headers(&self) -> Vec<(u64, Byte32)> {
         let key = Key::Meta(LAST_N_HEADERS_KEY).into_vec();
         self.db
@@ -581,6 +568,7 @@ impl Storage {
     }
 
     /// the matched blocks must not empty
+    #[cfg(test)]
     pub fn add_matched_blocks(
         &self,
         start_number: u64,
